@@ -50,13 +50,17 @@ package corebgp
 //@   modifies *p
 
 //@ func newPeer returns (p)
-//@   loop#0 invariant [slots] 0 <= i && i <= 2 && (forall k :: 0 <= k && k < i ==> p.transitionCh[k] != nil && p.errorCh[k] != nil && p.fsmState[k] == 0) && (forall k :: i <= k && k < 2 ==> p.fsmState[k] == 0) && !chanClosed(p.closeCh) && !chanClosed(p.doneCh)
+//@   loop#0 invariant [slots] 0 <= i && i <= 2 && (forall k :: 0 <= k && k < i ==> p.transitionCh[k] != nil && p.errorCh[k] != nil && p.fsmState[k] == 0) && (forall k :: i <= k && k < 2 ==> p.fsmState[k] == 0) && !chanClosed(p.closeCh) && !chanClosed(p.doneCh) && chanCap(p.inConnCh) == 0 && (forall k :: 0 <= k && k < i ==> chanCap(p.transitionCh[k]) == 0 && chanCap(p.errorCh[k]) == 0)
 //@   ensures [fresh] p != nil && fresh(p) && p.config == config && p.id == id && p.plugin == plugin && p.options == options
 //@   ensures [channels] p.inConnCh != nil && p.closeCh != nil && p.doneCh != nil && p.startupDelayTimer != nil && p.transitionCh[0] != nil && p.transitionCh[1] != nil && p.errorCh[0] != nil && p.errorCh[1] != nil && fresh(p.closeCh) && fresh(p.doneCh)
 //@   ensures [initial_state] p.fsms[0] == nil && p.fsms[1] == nil && p.fsmState[0] == 0 && p.fsmState[1] == 0 && !p.inHoldDown && p.startupDelay == 0 && p.lastProtoError == nil
+//@   ensures [rendezvous_channels] chanCap(p.transitionCh[0]) == 0 && chanCap(p.transitionCh[1]) == 0 && chanCap(p.errorCh[0]) == 0 && chanCap(p.errorCh[1]) == 0 && chanCap(p.inConnCh) == 0
 //@   ensures [not_started] !peerRunning(p) && !chanClosed(p.closeCh) && !chanClosed(p.doneCh) && !onceDone(p.closeOnce)
 
 //@ func Server.AddPeer returns (err)
+//@   ghostvar nLock int = 0
+//@   at call Lock set nLock = nLock + 1
+//@   ensures [one_critical_section] nLock <= 1 && (err == nil ==> nLock == 1)
 //@   requires serverObj(s) && !locked(s.mu) && peersOK(s)
 //@   requires [options_usable] forall k :: 0 <= k && k < len(opts) ==> isType(opts[k], *funcPeerOption) && asType(opts[k], *funcPeerOption) != nil && asType(opts[k], *funcPeerOption).fn != nil
 //@   let key = addrString(config.RemoteAddress)
@@ -74,6 +78,9 @@ package corebgp
 //@   ensures [started_iff_serving] err == nil ==> peerRunning(s.peers[key]) == s.serving
 
 //@ func Server.DeletePeer returns (err)
+//@   ghostvar nLock int = 0
+//@   at call Lock set nLock = nLock + 1
+//@   ensures [one_critical_section] nLock == 1
 //@   requires serverObj(s) && !locked(s.mu) && peersOK(s)
 //@   let key = addrString(ip)
 //@   modifies locked(s.mu), mapOf(s.peers), peerRunning, chanClosed, onceDone
@@ -84,6 +91,9 @@ package corebgp
 //@   ensures [others_untouched] forall k :: k != key ==> has(s.peers, k) == old(has(s.peers, k)) && (has(s.peers, k) ==> s.peers[k] == old(s.peers[k]))
 
 //@ func Server.GetPeer returns (c, err)
+//@   ghostvar nLock int = 0
+//@   at call Lock set nLock = nLock + 1
+//@   ensures [one_critical_section] nLock == 1
 //@   requires serverObj(s) && !locked(s.mu) && peersOK(s)
 //@   modifies locked(s.mu)
 //@   ensures [lock_released] !locked(s.mu)
@@ -91,6 +101,9 @@ package corebgp
 //@   ensures [present] has(s.peers, addrString(ip)) ==> err == nil && c == s.peers[addrString(ip)].config
 
 //@ func Server.ListPeers returns (r)
+//@   ghostvar nLock int = 0
+//@   at call Lock set nLock = nLock + 1
+//@   ensures [one_critical_section] nLock == 1
 //@   requires serverObj(s) && !locked(s.mu) && peersOK(s)
 //@   modifies locked(s.mu)
 //@   loop#0 invariant [prefix] locked(s.mu) && len(configs) == rangepos && 0 <= rangepos && rangepos <= rangelen && fresh(configs.arr) && (forall k :: 0 <= k && k < rangepos ==> configs[k] == s.peers[rangekey(k)].config)
@@ -123,7 +136,9 @@ package corebgp
 //@ func Server.Serve returns (err)
 //@   requires serverObj(s) && !locked(s.mu) && (chanClosed(s.closeCh) == onceDone(s.closeOnce))
 //@   requires [fresh_or_finished] chanClosed(s.doneServingCh) || !s.serving
-//@   requires [peers] forall k :: has(s.peers, k) ==> s.peers[k] != nil && peerStartable(s.peers[k])
+// (life cycle of the registry: until the server has served or been closed, no registered peer has
+// been started; a Server that has finished serving holds stopped peers and must refuse to serve)
+//@   requires [peers_unstarted_until_served] !chanClosed(s.doneServingCh) && !chanClosed(s.closeCh) ==> (forall k :: has(s.peers, k) ==> s.peers[k] != nil && peerStartable(s.peers[k]))
 //@   requires [peers_distinct] stoppablePeers(s)
 //@   requires [listeners] forall i :: 0 <= i && i < len(listeners) ==> listeners[i] != nil
 //@   ghostvar refused bool = false
